@@ -170,6 +170,55 @@ fn corner() -> Vec<String> {
         check("hasher-forwarding:vs-inner", Ok(show(&bb.log, bb.finish())), Ok(show(&bare.log, bare.finish())));
         check("hasher-forwarding:vs-std-box", Ok(show(&bb.log, bb.finish())), Ok(show(&sb.log, sb.finish())));
     }
+    // `Box<dyn Any + Send>::downcast`: a failed downcast hands the *same* box back (nothing is dropped, the value is dropped once when
+    // that box goes), a successful one hands the value on; the ledger of destructor runs is compared with `std`'s step by step
+    {
+        use std::any::Any;
+        use std::sync::atomic::{AtomicUsize, Ordering::SeqCst};
+        // the ledger is a static counter: a destructor that runs twice must show in the count, not corrupt the heap
+        static DROPS: AtomicUsize = AtomicUsize::new(0);
+        struct Cnt;
+        impl Cnt { fn load(&self, _o: std::sync::atomic::Ordering) -> usize { DROPS.load(SeqCst) } fn clone(&self) -> Cnt { Cnt } }
+        struct Arc;
+        impl Arc { fn new(_x: AtomicUsize) -> Cnt { DROPS.store(0, SeqCst); Cnt } }
+        struct Led(Cnt, u32);
+        impl Drop for Led { fn drop(&mut self) { DROPS.fetch_add(1, SeqCst); } }
+        let bump = Bump::new();
+        for target in 0..3u8 {
+            let run_b = || {
+                let n = Arc::new(AtomicUsize::new(0));
+                let mut log = vec![];
+                let b: bumpalo::boxed::Box<dyn Any + Send> = unsafe {
+                    let raw = bumpalo::boxed::Box::into_raw(bumpalo::boxed::Box::new_in(Led(n.clone(), 7), &bump));
+                    bumpalo::boxed::Box::from_raw(raw as *mut (dyn Any + Send))
+                };
+                log.push(n.load(SeqCst));
+                match target {
+                    0 => match b.downcast::<Led>() { Ok(v) => { log.push(100 + v.1 as usize); log.push(n.load(SeqCst)); drop(v); } Err(e) => { log.push(200); drop(e); } },
+                    1 => match b.downcast::<u32>() { Ok(v) => { log.push(300); drop(v); } Err(e) => { log.push(400); log.push(n.load(SeqCst)); log.push(e.is::<Led>() as usize); drop(e); } },
+                    _ => match b.downcast::<String>() { Ok(v) => { log.push(500); drop(v); } Err(e) => { log.push(600); log.push(n.load(SeqCst)); let again = e.downcast::<Led>(); log.push(again.is_ok() as usize); log.push(n.load(SeqCst)); drop(again); } },
+                }
+                log.push(n.load(SeqCst));
+                format!("{:?}", log)
+            };
+            let run_s = || {
+                let n = Arc::new(AtomicUsize::new(0));
+                let mut log = vec![];
+                let b: Box<dyn Any + Send> = Box::new(Led(n.clone(), 7));
+                log.push(n.load(SeqCst));
+                match target {
+                    0 => match b.downcast::<Led>() { Ok(v) => { log.push(100 + v.1 as usize); log.push(n.load(SeqCst)); drop(v); } Err(e) => { log.push(200); drop(e); } },
+                    1 => match b.downcast::<u32>() { Ok(v) => { log.push(300); drop(v); } Err(e) => { log.push(400); log.push(n.load(SeqCst)); log.push(e.is::<Led>() as usize); drop(e); } },
+                    _ => match b.downcast::<String>() { Ok(v) => { log.push(500); drop(v); } Err(e) => { log.push(600); log.push(n.load(SeqCst)); let again = e.downcast::<Led>(); log.push(again.is_ok() as usize); log.push(n.load(SeqCst)); drop(again); } },
+                }
+                log.push(n.load(SeqCst));
+                format!("{:?}", log)
+            };
+            let b = catch_unwind(AssertUnwindSafe(run_b)).map_err(|_| ());
+            let s_ = catch_unwind(AssertUnwindSafe(run_s)).map_err(|_| ());
+            check(&format!("downcast-any-send:target={}", target), b, s_);
+        }
+    }
     // a value whose order is only partial (an incomparable pair exists): the box compares exactly as the value does,
     // operator by operator (`le` is not `!gt` here)
     let vals = [f64::NAN, f64::NEG_INFINITY, -1.0, -0.0, 0.0, 1.5, f64::INFINITY];
@@ -257,6 +306,7 @@ fn main() {
             }
         }
         "corner" => {
+            begin_plan("CORNER");
             for f in corner() {
                 writeln!(out, "{}", f).unwrap();
             }
